@@ -25,17 +25,31 @@ PURE_METHODS = {'get', 'lower', 'upper', 'startswith', 'endswith', 'join', 'stri
                 'index', 'count', 'replace', 'format', 'keys', 'values', 'items', 'isdigit', 'isalpha', 'group', 'title', 'center', 'splitlines'}
 
 
-def reads_heap(val):
+def reads_heap(val, stable=()):
     """does the expression read an attribute / element that a later call or store could change?  (`_cN[k]`, the k-th
-    component of a tuple a call returned, is a destructuring, not a heap read)"""
+    component of a tuple a call returned, is a destructuring, not a heap read; `opts['key']` on a table the function never
+    writes is an option read: option tables are not written after they were built - OWN-CALLER / OWN-DEFAULT)"""
     for n in ast.walk(val):
         if isinstance(n, ast.Attribute):
             return True
         if isinstance(n, ast.Subscript):
             if isinstance(n.value, ast.Name) and n.value.id.startswith('_c') and isinstance(n.slice, ast.Constant):
+                continue            # component of a returned tuple, or a constant key of a returned option table
+            if isinstance(n.value, ast.Name) and n.value.id in stable and isinstance(n.slice, ast.Constant) and isinstance(n.slice.value, str):
                 continue
             return True
     return False
+
+
+def _stable_tables(node):
+    """names of dicts that this function only reads by constant string key (never stores into / mutates by method)"""
+    read, written = set(), set()
+    for n in ast.walk(node):
+        if isinstance(n, ast.Subscript) and isinstance(n.value, ast.Name) and isinstance(n.slice, ast.Constant) and isinstance(n.slice.value, str):
+            (written if isinstance(n.ctx, (ast.Store, ast.Del)) else read).add(n.value.id)
+        if isinstance(n, ast.Call) and isinstance(n.func, ast.Attribute) and isinstance(n.func.value, ast.Name) and n.func.attr in ('update', 'pop', 'clear', 'setdefault', 'popitem', '__setitem__'):
+            written.add(n.func.value.id)
+    return read - written
 
 
 class Unsupported(Exception):
@@ -63,7 +77,7 @@ class Path:
                 return pol
         return None
 
-    def resolve(self, expr, depth=8):
+    def resolve(self, expr, depth=8, objects=True):
         """expression with snapshot symbols replaced by what they froze and call symbols by the calls they stand for: a
         canonical spelling over the inputs of the function, for recognising roles (it forgets evaluation time and
         sharing, so use it to identify *what* flows somewhere, not *when* it was computed)"""
@@ -75,6 +89,8 @@ class Path:
                 self.d = d
 
             def visit_Name(self, node):
+                if not objects and node.id.startswith('_o') and node.id[2:].isdigit():
+                    return node
                 if self.d > 0 and node.id in snaps:
                     return R(self.d - 1).visit(copy.deepcopy(snaps[node.id][1]))
                 if self.d > 0 and node.id in calls:
@@ -154,6 +170,8 @@ class SymPaths:
         self.ncall = 0
         self.nhavoc = 0
         self.nfreeze = 0
+        self.nobj0 = 0
+        self.stable = _stable_tables(func.node)
         self.nloop = 0
         self.unroll = unroll
         self.snaps = {}
@@ -341,6 +359,9 @@ class SymPaths:
         if isinstance(e, ast.Name):
             if isinstance(e.ctx, ast.Load) and e.id in path.env:
                 return [(path, copy.deepcopy(path.env[e.id]))]
+            c = self._named_constant(e.id)
+            if c is not None:
+                return [(path, c)]
             return [(path, e)]
         if isinstance(e, (ast.Constant, ast.Lambda, ast.ListComp, ast.GeneratorExp, ast.DictComp, ast.SetComp, ast.JoinedStr)):
             return [(path, self.expand(e, path))]
@@ -393,6 +414,35 @@ class SymPaths:
             out.append((q, n))
         return out
 
+    def _named_constant(self, name, depth=0):
+        """a module-level name bound once to a number / string or to an arithmetic / bit combination of class constants
+        (ParserState.A | ParserState.B) is spelled out, so naming a constant changes nothing"""
+        if name in self.f.locals or depth > 3:
+            return None
+        ent = self.p.resolve_name(self.f, name)
+        if ent is None or ent.kind != 'const':
+            return None
+        vals = ent.obj[2]
+        if len(vals) != 1 or vals[0] is None:
+            return None
+        v = vals[0]
+        if isinstance(v, ast.Constant) and isinstance(v.value, (int, float, str)) and not isinstance(v.value, bool):
+            return copy.deepcopy(v)
+        if isinstance(v, ast.UnaryOp) and isinstance(v.operand, ast.Constant):
+            return copy.deepcopy(v)
+        if isinstance(v, ast.BinOp) and all(isinstance(n, (ast.BinOp, ast.Attribute, ast.Name, ast.Constant, ast.operator, ast.expr_context)) for n in ast.walk(v)):
+            m = ent.obj[0]
+            out = copy.deepcopy(v)
+
+            class S(ast.NodeTransformer):
+                def visit_Name(s_, node):
+                    if node.id == name:
+                        return node
+                    sub = self._named_constant(node.id, depth + 1)
+                    return sub if sub is not None else node
+            return S().visit(out)
+        return None
+
     def _seq(self, exprs, path):
         """evaluate expressions left to right -> [(path, [values])]"""
         cur = [(path, [])]
@@ -411,6 +461,14 @@ class SymPaths:
 
     def assign(self, target, value, path):
         if isinstance(target, ast.Name):
+            if isinstance(value, (ast.List, ast.Dict, ast.Set, ast.ListComp, ast.DictComp, ast.SetComp)):
+                # a fresh mutable object: bound to an object symbol (its contents may change through later calls, so its
+                # truthiness / length are never folded); the display it was created from is kept for resolve()
+                k = sum(1 for e in path.events if e[0] == '@new') + 1 + self.nobj0
+                sym = '_o%d' % k
+                self.snaps[sym] = (target.id, value, len(path.events))
+                path.events = path.events + (('@new', ast.Assign(targets=[ast.Name(id=sym, ctx=ast.Store())], value=value), path.conds),)
+                value = ast.Name(id=sym, ctx=ast.Load())
             path.env[target.id] = value
         elif isinstance(target, (ast.Tuple, ast.List)) and isinstance(value, (ast.Tuple, ast.List)) and len(value.elts) == len(target.elts):
             for t, v in zip(target.elts, value.elts):
@@ -526,7 +584,7 @@ class SymPaths:
         # a loop / try block may call and store anything: freeze what reads the heap, make heap tests stale
         self.nfreeze += 1
         for name, val in list(path.env.items()):
-            if reads_heap(val):
+            if reads_heap(val, self.stable):
                 sym = '_s%d_%s' % (self.nfreeze, name)
                 self.snaps[sym] = (name, val, len(path.events))
                 path.env[name] = ast.Name(id=sym, ctx=ast.Load())
@@ -562,7 +620,7 @@ class SymPaths:
         for name in self.rebound:
             path.env[name] = ast.Name(id='_h%d_%s' % (self.nfreeze, name), ctx=ast.Load())      # a nested function may re-bind it (nonlocal)
         for name, val in list(path.env.items()):
-            if reads_heap(val):
+            if reads_heap(val, self.stable):
                 sym = '_s%d_%s' % (self.nfreeze, name)
                 self.snaps[sym] = (name, val, len(path.events))
                 path.env[name] = ast.Name(id=sym, ctx=ast.Load())
@@ -713,6 +771,7 @@ def block_summaries(project, func, stmts, pure=(), env=None, ncall0=0):
     node = ast.FunctionDef(name='_block', args=None, body=list(stmts), decorator_list=[])
     sp = SymPaths(project, func, node, pure=pure)
     sp.ncall = ncall0
+    sp.nobj0 = ncall0
     done = []
     first = Path(env=dict(env or {}))
     for q in sp.block(node.body, [first], done):
